@@ -3,10 +3,7 @@ use crate::*;
 
 /// A game whose tree is a single terminal; only the infoset tables matter
 /// (named view, truncate, distance, import never look at the tree).
-pub(crate) fn table_game(
-    multi: [&[(u8, &[u8])]; 2],
-    singles: [&[(u8, u8)]; 2],
-) -> Game<u8, u8> {
+pub(crate) fn table_game(multi: [&[(u8, &[u8])]; 2], singles: [&[(u8, u8)]; 2]) -> Game<u8, u8> {
     let mk = |m: &[(u8, &[u8])]| -> Box<[PlayerInfosetData<u8, u8>]> {
         m.iter()
             .map(|(name, acts)| PlayerInfosetData {
